@@ -3,5 +3,5 @@ CHECK_DEADLOCK FALSE
 INVARIANT Emit
 CONSTANTS
   DEPTH = 40
-  MAXDIG = 400
-  MIXED = FALSE
+  MAXDIG = 260
+  MIXED = TRUE
